@@ -421,7 +421,7 @@ run_exp_while = Fn(S, 'run_exp_while', ret='r', pre_rewrites=RW,
     hints={'fn-entry': 'RAW: let ghost mut g_all: Seq<CommandResult> = Seq::empty(); proof { note_entry(lg, pair_while, true); }',
            'after-call:run_exp_test_br': 'g_all = g_all + _cr_list@; note_branch(wl, passed, _cont, _brk);',
            'loop-0-body-entry': 'note_start(lg);',
-           'before-text:if !passed || _brk': 'note_check(lg, stop_spec(cr_list@, *sh));'},
+           'before-text:if !passed': 'note_check(lg, stop_spec(cr_list@, *sh));'},
 )
 
 run_lines = Fn(S, 'run_lines', ret='r', pre_rewrites=RW,
